@@ -312,6 +312,25 @@ impl Chain {
             block.verify_chain(&prev_block)?;
             if let Some(ref registry) = self.validator_registry {
                 block.header.verify_signature(registry)?;
+
+                // The validator signature list is outside the header hash: check each
+                // entry against this block's hash and the registered keys.
+                let block_hash = block.hash();
+                for sig in &block.signatures {
+                    let key = registry.get(&sig.validator).ok_or_else(|| {
+                        ChainError::ValidationFailed(format!(
+                            "unknown validator: {}",
+                            sig.validator
+                        ))
+                    })?;
+                    if sig.block_hash != block_hash
+                        || key.verify(&block_hash, &sig.signature).is_err()
+                    {
+                        return Err(ChainError::ValidationFailed(
+                            "invalid validator signature".to_string(),
+                        ));
+                    }
+                }
             }
             prev_block = block;
         }
